@@ -230,7 +230,7 @@ static _Bool walk(void) {
   for (step = 0; step < NP + 1; step++) {
     if (p == 0) break;
     size_t i = NIDX(p);
-    if (i >= NP || post_in[i]) { ok = 0; break; }
+    if (i >= NP || p != NADDR(i) || post_in[i]) { ok = 0; break; }
     if (!g_alloc[i] || !g_pub[i] || g_retired[i] != 0) ok = 0;
     if (have && !(last < pool[i].key)) ok = 0;
     post_in[i] = 1; last = pool[i].key; have = 1;
@@ -275,8 +275,13 @@ struct iter g_it; size_t in_j; unsigned in_start, in_cur;
  * real text (h_find_int, function hms_find_cut = the same source text with the for loop and the retry label cut); the callers are
  * then proved with find replaced by that contract (find_stub). */
 size_t in_m; unsigned char m_gen; _Bool m_marked;   /* ghost: an arbitrary node that is marked when find is entered */
-static _Bool guard_ok(struct guard* g) { size_t i = NIDX(MP_get(g->ptr)); return g->ptr == 0 || (MP_mark(g->ptr) == 0 && i < NP && g_alloc[i] && g_pub[i] && g_cnt[i] > 0); }
-static _Bool cnt_range(void) { _Bool ok = 1; for (int i = 0; i < NP; i++) if (g_cnt[i] < 0 || g_cnt[i] > 4) ok = 0; return ok; }
+static _Bool guard_ok(struct guard* g) { size_t i = NIDX(MP_get(g->ptr)); return g->ptr == 0 || (i < NP && g->ptr == NADDR(i) && g_alloc[i] && g_pub[i] && g_cnt[i] > 0); }
+/* exact accounting of this handle's guards: the find_info(s) in use plus one more guard */
+static _Bool cnt_exact(struct find_info* a, struct guard* b, struct find_info* c) {
+  _Bool ok = 1;
+  for (int i = 0; i < NP; i++) if (g_cnt[i] != (int)(guards_on(a, i) + (b != 0 && b->ptr == NADDR(i)) + (c != 0 ? guards_on(c, i) : 0))) ok = 0;
+  return ok;
+}
 /* (prev, save) as find requires and delivers them: start of the list, or the next field of a protected node with a smaller key */
 static _Bool fi_ok(struct find_info* f, hkey key) {
   size_t s = NIDX(G_GET(f->save));
@@ -285,7 +290,7 @@ static _Bool fi_ok(struct find_info* f, hkey key) {
 }
 static _Bool retire_ok(size_t j) { return u_unlink[j] == u_retire[j]; }
 static _Bool mark_mono(void) { return !m_marked || g_gen[in_m] != m_gen || !g_alloc[in_m] || MP_mark(pool[in_m].next) != 0; }
-static _Bool int_common(void) { return int_wf() && cnt_range() && n_illegal == 0 && retire_ok(in_j) && !g_unsafe && !g_bad_delete && mark_mono(); }
+static _Bool int_common(void) { return int_wf() && n_illegal == 0 && retire_ok(in_j) && !g_unsafe && !g_bad_delete && mark_mono(); }
 static void havoc_guards(void) { for (int i = 0; i < NP; i++) g_cnt[i] = (signed char)nondet_uchar(); }
 static void havoc_info(struct find_info* f) { f->prev = nondet_uptr_p(); f->next = nondet_uptr(); f->cur.ptr = nondet_uptr(); f->save.ptr = nondet_uptr(); }
 static void havoc_progress(void) { u_unlink[in_j] = nondet_uchar(); u_retire[in_j] = nondet_uchar(); n_unlink = nondet_uint(); for (int i = 0; i < NP; i++) { rd_val[i] = nondet_uptr(); rd_has[i] = nondet_bool(); }
@@ -316,7 +321,7 @@ static void int_info(struct find_info* f, hkey key) {
 /* ---- cut points of hms_find_cut (the text of find): label retry, and the for loop */
 #define FIND_START_OK ((start == &the_set.head && start_guard.ptr == 0) || \
    (start_guard.ptr != 0 && guard_ok(&start_guard) && start == &pool[NIDX(start_guard.ptr)].next && KEY_LESS(pool[NIDX(start_guard.ptr)].key, key)))
-#define FIND_CNT_OK (g_cnt[in_j] == (int)(guards_on(info_p, in_j) + (start_guard.ptr == NADDR(in_j))))
+#define FIND_CNT_OK cnt_exact(info_p, &start_guard, 0)
 #define XV_INV_RETRY (int_common() && n_link == 0 && n_mark == 0 && g_new == 0 && FIND_START_OK && FIND_CNT_OK && guard_ok(&(*info_p).cur) && guard_ok(&(*info_p).save))
 #define XV_HAVOC_RETRY env_havoc(); havoc_info(info_p); havoc_guards(); havoc_progress(); start = nondet_uptr_p(); start_guard.ptr = nondet_uptr()
 #define XV_INV_FINDLOOP (int_common() && n_link == 0 && n_mark == 0 && g_new == 0 && FIND_START_OK && FIND_CNT_OK && fi_ok(info_p, key) && \
@@ -331,7 +336,8 @@ static _Bool find_requires(struct find_info* f, hkey key) { return fi_ok(f, key)
  *  P3 info.next is unmarked: the value read from cur->next (recorded as the last-but-one read), 0 when cur is empty
  *  P4 the pair (*prev, cur) is the one validated by the last acquire_if_equal
  *  P5 only legal unlink steps, each followed by exactly one retire; no other writes; no guard leaked
- *  P6 cur was seen unmarked during the call: it is not a node that was already marked when find was entered */
+ *  P6 cur was seen unmarked during the call: it is not a node that was already marked when find was entered
+ *  P7 a node with this key that was already marked when find was entered has been spliced out (by find or by somebody else) */
 static _Bool find_ensures(struct find_info* f, hkey key, _Bool r) {
   size_t c = NIDX(G_GET(f->cur));
   if (!fi_ok(f, key)) return 0;
@@ -341,6 +347,7 @@ static _Bool find_ensures(struct find_info* f, hkey key, _Bool r) {
   if (!(aie_ok && aie_cell == f->prev && aie_val == f->cur.ptr)) return 0;
   if (G_GET(f->cur) != 0 && !(rd_has[c] && rd_val[c] == f->next)) return 0;
   if (G_GET(f->cur) != 0 && m_marked && c == in_m && g_gen[in_m] == m_gen) return 0;
+  if (m_marked && g_gen[in_m] == m_gen && g_alloc[in_m] && pool[in_m].key == key && g_linked[in_m]) return 0;
   return 1;
 }
 #ifdef XV_INT
@@ -361,6 +368,7 @@ static _Bool find_stub(struct hms* self, hkey key, struct find_info* f, int* bo)
   XV_ASSUME(find_ensures(f, key, r));
   m_marked = keep_m;
   XV_ASSUME(c == NP || !(em[c] && eg[c] == g_gen[c]));
+  for (int i = 0; i < NP; i++) XV_ASSUME(!(em[i] && eg[i] == g_gen[i] && g_alloc[i] && pool[i].key == key && g_linked[i]));
   return r;
 }
 #undef HMS_FIND
@@ -371,13 +379,20 @@ static _Bool find_stub(struct hms* self, hkey key, struct find_info* f, int* bo)
 
 /* ---- cut points of the callers' retry loops (INT variants *_i of the same source text) */
 #define NEW_PRIVATE(n, k) ((n) == NADDR(L) && g_alloc[L] && !g_pub[L] && pool[L].key == (k) && g_cnt[L] == 0 && g_new == 1 && g_delete == 0)
-#define XV_INV_EMPL (int_common() && n_link == 0 && n_mark == 0 && NEW_PRIVATE(n, args) && fi_ok(&info, args) && g_cnt[in_j] == (int)guards_on(&info, in_j))
+#define XV_INV_EMPL (int_common() && n_link == 0 && n_mark == 0 && NEW_PRIVATE(n, args) && fi_ok(&info, args) && cnt_exact(&info, 0, 0))
 #define XV_HAVOC_EMPL env_havoc(); havoc_info(&info); havoc_guards(); havoc_progress(); pool[L].next = nondet_uptr() /* NDEREF n prev */
-#define XV_INV_ERASE (int_common() && n_link == 0 && n_mark == 0 && g_new == 0 && fi_ok(&info, key) && g_cnt[in_j] == (int)guards_on(&info, in_j))
+#define XV_INV_ERASE (int_common() && n_link == 0 && n_mark == 0 && g_new == 0 && fi_ok(&info, key) && cnt_exact(&info, 0, 0))
 #define XV_HAVOC_ERASE env_havoc(); havoc_info(&info); havoc_guards(); havoc_progress() /* GDEREF cur next */
+/* operator++ after the F11 repair: the fast path is retried while cur is unmarked */
+#define INC_CUR (NIDX(G_GET(self->info.cur)))
+#define XV_INV_INC (int_common() && n_link == 0 && n_mark == 0 && g_new == 0 && G_GET(self->info.cur) != 0 && fi_ok(&self->info, pool[INC_CUR].key) && self->list == &the_set && \
+   tmp_guard.ptr == 0 && word_ok(next) && (MP_mark(next) == 0 || pool[INC_CUR].next == next) && cnt_exact(&self->info, 0, 0) && \
+   inc_c0 == INC_CUR && g_gen[INC_CUR] == inc_gen0)
+#define XV_HAVOC_INC env_havoc(); next = nondet_uptr(); havoc_progress()
+size_t inc_c0; unsigned char inc_gen0;
 #define ERIT_CUR (NIDX(G_GET(pos.info.cur)))
 #define XV_INV_ERIT (int_common() && n_link == 0 && n_mark == 0 && g_new == 0 && G_GET(pos.info.cur) != 0 && fi_ok(&pos.info, pool[ERIT_CUR].key) && \
-   word_ok(next) && rd_has[ERIT_CUR] && rd_val[ERIT_CUR] == next && g_cnt[in_j] == (int)(guards_on(&pos.info, in_j) + guards_on(&g_it.info, in_j)))
+   word_ok(next) && (MP_mark(next) == 0 || pool[ERIT_CUR].next == next) /* a marked next field is frozen */ && rd_has[ERIT_CUR] && rd_val[ERIT_CUR] == next && cnt_exact(&pos.info, 0, &g_it.info))
 #define XV_HAVOC_ERIT env_havoc(); next = nondet_uptr(); havoc_progress() /* GDEREF pos info cur */
 
 
@@ -527,10 +542,11 @@ void h_erase(void) {
   XV_OBL("hms.erase.guards", no_guards(in_j));
   XV_OBL("hms.erase.safe", !g_unsafe);
 #ifdef SECOND_ERASE
-  /* a second erase of the same key on the resulting state fails and changes nothing */
-  unsigned m1 = n_mark, u1 = n_unlink; mptr h1 = the_set.head; mptr nx = pool[in_j].next; unsigned char r1 = g_retired[in_j];
+  /* a second erase of the same key on the resulting state fails, marks nothing and leaves the abstract set as it is (it may help unlinking) */
+  unsigned m1 = n_mark; mptr nx = pool[in_j].next; _Bool has1 = post_has(in_gk);
   _Bool r2 = hms_erase(&the_set, in_k);
-  XV_OBL("hms.erase.second_fails", !r2 && n_mark == m1 && pool[in_j].next == nx && g_retired[in_j] == r1 && !g_unsafe && no_guards(in_j));
+  _Bool wf2 = walk();
+  XV_OBL("hms.erase.second_fails", !r2 && n_mark == m1 && wf2 && post_has(in_gk) == has1 && MP_mark(pool[in_j].next) == MP_mark(nx) && g_retired[in_j] <= 1 && !g_unsafe && no_guards(in_j));
   if (r) XV_CANARY("erase.second_after_true");
 #endif
   if (n_unlink >= 2) XV_CANARY("erase.helped");
@@ -726,9 +742,9 @@ void h_iter_inc_int(void) {
   in_start = nondet_uint(); int_guard(&g_it.info.save, in_start); int_guard(&g_it.info.cur, in_cur);
   g_it.info.prev = in_start == NP ? &the_set.head : &pool[in_start].next;
   XV_ASSUME(fi_ok(&g_it.info, k0));
-  pick_marked_ghost();
+  pick_marked_ghost(); inc_c0 = c0; inc_gen0 = gen0;
   env_on = 1;
-  hms_iter_inc(&g_it);
+  hms_iter_inc_i(&g_it);
   env_on = 0;
   size_t nc = G_GET(g_it.info.cur) == 0 ? NP : NIDX(G_GET(g_it.info.cur));
   /* no key is yielded twice unless re-inserted: the iterator leaves the node it stood on (same memory is fine only if it was freed and re-used) */
